@@ -31,7 +31,8 @@ pub fn chains() -> Vec<Vec<u8>> {
 }
 
 fn clean_at(text: &str, sp: &Sp, step: u8) -> Result<String, String> {
-    api::call_clean(text, sp, &step_cfg(step))
+    // the clock reading varies from run to run within the same step (fractional seconds, other zone)
+    api::call_clean(text, sp, &step_cfg_var(step, hash_str(text)))
         .map(|(o, _)| o)
         .map_err(|p| format!("clean panicked: {} @ {}", trunc(&p.msg, 60), api::short_loc(&p.loc)))
 }
